@@ -188,7 +188,7 @@ Definition listed_in_frag (h : heap) (n : nat) : bool :=
 
 Definition root_of (h : heap) (n : nat) : nat := last (chain (length h) h n) n.
 
-(* position of [o] relative to [s] in document order *)
+(* the same in terms of preorder positions (an equivalent formulation; the two are compared on every run) *)
 Definition spec_compare (h : heap) (s o : nat) : Z :=
   if negb (opt_eqb (owner h s) (owner h o)) then POS_DISCONNECTED
   else if Nat.eqb s o then POS_SAME
@@ -199,6 +199,32 @@ Definition spec_compare (h : heap) (s o : nat) : Z :=
        | Some a, Some b => if Nat.ltb b a then POS_PRECEDING else POS_FOLLOWING
        | _, _ => POS_DISCONNECTED
        end.
+
+(* document order as the lexicographic order of position paths ("Dewey" numbers): the index of every node of the
+   root-first path in its parent's child list *)
+Fixpoint path_idx (h : heap) (l : list nat) : list nat :=
+  match l with
+  | x :: ((y :: _) as r) => match index_of y (children h x) with Some k => k | None => 0 end :: path_idx h r
+  | _ => []
+  end.
+
+Definition dewey (h : heap) (n : nat) : list nat := path_idx h (rev (chain (length h) h n)).
+
+Fixpoint lex_lt (a b : list nat) : bool :=
+  match a, b with
+  | [], _ :: _ => true
+  | x :: a', y :: b' => Nat.ltb x y || (Nat.eqb x y && lex_lt a' b')
+  | _, _ => false
+  end.
+
+(* position of [o] relative to [s], for nodes of one tree *)
+Definition spec_compare_dewey (h : heap) (s o : nat) : Z :=
+  if negb (opt_eqb (owner h s) (owner h o)) then POS_DISCONNECTED
+  else if Nat.eqb s o then POS_SAME
+  else if mem o (chain (length h) h s) then POS_CONTAINS
+  else if mem s (chain (length h) h o) then POS_CONTAINED_BY
+  else if lex_lt (dewey h o) (dewey h s) then POS_PRECEDING else POS_FOLLOWING.
+
 
 (* does the raw parentNode walk from n run in circles?  (In a consistent tree this can only happen through the
    stale parentNode link of a root -- a removed node or a clone -- that leads back into its own tree.) *)
